@@ -488,11 +488,9 @@ def draw_network(
     s_default = (180 / max(width, height)) ** 2
     arguments = collect_agent_data(space, agent_portrayal, size=s_default)
 
-    # this assumes that nodes are identified by an integer
-    # which is true for default nx graphs but might user changeable
-    pos = np.asarray(list(pos.values()))
-    if len(arguments["loc"]) > 0:
-        arguments["loc"] = pos[arguments["loc"]]
+    # look up the layout position of each agent's node by the node's label
+    # (not by its rank in the graph: nodes need not be 0..n-1 in insertion order)
+    arguments["loc"] = np.asarray([pos[node] for node in arguments["loc"]])
 
     # plot the agents
     _scatter(ax, arguments, **kwargs)
